@@ -1,7 +1,7 @@
 """C14 — all step-solver and linear-solver choices compute the same Newton step."""
 from ..gen import Gen
 from ..unit import run_unit
-from ..units.step import Newton, cross_solver_oracle
+from ..units.step import Newton, cross_solver_oracle, perform_iteration_oracle
 from ..units.linsolve import LinSolve
 
 PROP_FILES = ["props/C14.v"]
@@ -14,3 +14,4 @@ def run(rep, tier, seed, scratch):
     for u in (Newton(), LinSolve()):
         run_unit(rep, u, u.gen(g, tier), scratch)
     cross_solver_oracle(rep, tier, seed)
+    perform_iteration_oracle(rep, tier, seed)
